@@ -248,9 +248,16 @@ def dc_cases(draw, tier):
     cols = [draw(st.integers(0, (1 << W) - 1)) for _ in range(m)]
     ncells = draw(st.integers(1, 6 if tier == 'thorough' else 5))
     cells = sorted({(draw(st.integers(0, m - 1)), draw(st.integers(0, W - 1))) for _ in range(ncells)})
+    if m >= 2 and draw(st.integers(0, 3)) == 0:
+        # two outputs spelled alike, free cells included (rows that are equal as values but not the same object)
+        cols[1] = cols[0]
+        own = [(0, j) for i, j in cells if i in (0, 1)] or [(0, draw(st.integers(0, W - 1)))]
+        cells = sorted({c for c in cells if c[0] > 1} | set(own[:2]) | {(1, j) for _, j in own[:2]})
     return {'db': which, 'n': n, 'cols': cols, 'cells': [list(c) for c in cells],
             # the size measure of the lookup: default, or an explicit exclusion list (list / tuple / frozenset of gate types)
-            'excl': draw(st.sampled_from([None, None, ['INPUT'], ('INPUT', 'AND'), ['NOT'], ['INPUT', 'NOT', 'IFF']])),
+            # (some lists make whole completions free of charge: sizes of 0 are sizes too)
+            'excl': draw(st.sampled_from([None, None, ['INPUT'], ('INPUT', 'AND'), ('INPUT', 'AND'), ['NOT'], ['INPUT', 'NOT', 'IFF'],
+                                          ['INPUT', 'NOT', 'XOR', 'NXOR'], ('INPUT', 'AND', 'OR')])),
             # lookups made on the same database object just before: the same cells cut into rows of another length, with an
             # all-False row in front, or the same pattern under another measure
             'prior': draw(st.sampled_from([None, None, 'reshape', 'reshape', 'zero_row', 'other_measure']))}
